@@ -31,6 +31,16 @@ RefProtectParts(m, su, keys, initiator, iv, padLen, pad) ==
       icv     == Slice(Hmac(su.integ, keys[IntegKeyName(initiator)], front), 0, IcvLen(su.integ))
   IN [wire |-> Cat(<< front, icv >>), len |-> 28 + 4 + bodyLen, inner |-> inner, ctLen |-> ctLen]
 RefProtect(m, su, keys, initiator, iv, padLen, pad) == RefProtectParts(m, su, keys, initiator, iv, padLen, pad).wire
+\* the same for arbitrary plaintext octets `plain` (inner chain, padding and pad-length octet already in it; a block
+\* multiple) and an arbitrary first-inner-payload type: an AUTHENTIC datagram whose inside may be malformed
+RefProtectRaw(h, first, plain, su, keys, initiator, iv) ==
+  LET bodyLen == 16 + Len(plain) + IcvLen(su.integ)
+      hdr     == EncHeader(h, 46, 4 + bodyLen)
+      gen     == << first, 0 >> \o U16(4 + bodyLen)
+      front   == Cat(<< Lit(hdr \o gen), iv, Cbc(keys[EncKeyName(initiator)], iv, Lit(plain)) >>)
+  IN Cat(<< front, Slice(Hmac(su.integ, keys[IntegKeyName(initiator)], front), 0, IcvLen(su.integ)) >>)
+\* minimal padding of inner octets to a block multiple
+Padded(inner) == inner \o Zeros(MinPad(Len(inner))) \o << MinPad(Len(inner)) >>
 ProtectedLen(m, su, padLen) == 28 + 4 + 16 + Len(EncChain(NormChain(m.payloads))) + padLen + 1 + IcvLen(su.integ)
 \* the library pads minimally today; any padLen in PadLens is legal.  Length of what the library produces:
 LibProtectedLen(m, su) == ProtectedLen(m, su, MinPad(Len(EncChain(NormChain(m.payloads)))))
